@@ -122,7 +122,9 @@ def r2_flag_carried(cx):
         # path-sensitive constant propagation under (configured compression, flag): which channel is reachable
         for v in en[0]["variants"]:
             for flagval in (True, False):
-                r, _ = wb.explore(assume_locals={3: flagval}, assume_discr={r"creator::Compression$": v["discr"]}, avoid=wb.error_blocks())
+                # `self.compression != Compression::None` is a call of the derived PartialEq: its result under the assumption
+                cmps = {blk: ((v["name"] != var) if ne else (v["name"] == var)) for blk, var, ne in wb.variant_comparisons(r"creator::Compression$")}
+                r, _ = wb.explore(assume_locals={3: flagval}, assume_discr={r"creator::Compression$": v["discr"]}, assume_calls=cmps, avoid=wb.error_blocks())
                 to_c, to_w = ds[0][0] in r, fs[0][0] in r
                 verdict[(v["name"], flagval)] = "dispatch" if to_c and not to_w else ("fusion" if to_w and not to_c else ("both" if to_c else "none"))
         want = {(v["name"], fl): ("dispatch" if (v["name"] != "None" and fl) else "fusion") for v in en[0]["variants"] for fl in (True, False)}
@@ -229,6 +231,8 @@ def r3_tail_says(cx):
     cb = F.body(c)
     sc = cb.calls(r"clusterwriter::serialize_cluster_tail$")
     wcd = cb.calls(r"ClusterCompressor::write_cluster_data$")
+    if not wcd and cb.calls(r"::(lz4|lzma|zstd)_compress$"):
+        wcd = cb.calls(r"::(lz4|lzma|zstd)_compress$")[:1]      # the dispatch has been merged into compress_cluster
     cx.ob("R3", "R3/compressor-records-its-algorithm", len(sc) == 1 and len(wcd) == 1 and ("field", "compression") in cb.origins(sc[0][1]["args"][0], through_calls=False), c,
           "the compressor records self.compression, the value write_cluster_data dispatches on")
 
